@@ -4,16 +4,24 @@ construction order of `core::core()` (lra, ov, idl, rdl).  This file re-states t
 `sat_core::propagate / assume / pop / next / check` with the theory calls in place
 (/repo/smt/sat_core.cpp, theory.cpp); the purely propositional steps are the functions of
 OratioModel/Sat/Core.lean.  (`ov_theory` only notifies listeners; it has no effect here.)
+
+Theory calls inside `propagate()`: after the clauses watching the dequeued literal, `th->propagate(p)`
+for the theory the variable is bound to; when the queue is exhausted, `th->check()` for every theory
+in registration order - only `lra_theory::check` (the simplex) can fail or change state, the others
+return `true`.  A failing call leaves its explanation in `theory::cnfl`: at root level it is cleared
+and `false` is returned, otherwise `analyze_and_backjump()` learns from it and the main loop resumes.
 -/
 import OratioModel.Net.Dl
+import OratioModel.Net.Lra
 
 namespace Oratio
 
-inductive Th where | idl | rdl
+inductive Th where | lra | idl | rdl
 deriving DecidableEq, Repr
 
 structure Net where
   sat : Sat
+  lra : Lra
   idl : Dl Int
   rdl : Dl IR
   /-- `bounds`: SAT variable ↦ the theory bound to it -/
@@ -22,12 +30,12 @@ deriving Repr
 
 namespace Net
 
-def init : Net := ⟨Sat.init, Dl.init idlOps, Dl.init rdlOps, []⟩
+def init : Net := ⟨Sat.init, Lra.init, Dl.init idlOps, Dl.init rdlOps, []⟩
 
 def theoryOf (n : Net) (v : Nat) : Option Th := (n.bound.find? (fun e => e.1 == v)).map (·.2)
 
 /-- `pop()`: the SAT level and every theory's layer -/
-def pop (n : Net) : Net := { n with sat := n.sat.pop, idl := n.idl.pop, rdl := n.rdl.pop }
+def pop (n : Net) : Net := { n with sat := n.sat.pop, lra := n.lra.pop, idl := n.idl.pop, rdl := n.rdl.pop }
 
 def popTo (n : Net) (lvl : Nat) : Net :=
   let rec go (k : Nat) (n : Net) : Net :=
@@ -36,16 +44,21 @@ def popTo (n : Net) (lvl : Nat) : Net :=
     | k + 1 => if n.sat.decisionLevel > lvl then go k n.pop else n
   go n.sat.decisionLevel n
 
-/-- theory propagation of an assigned literal: `.inl cnfl` on conflict -/
-def theoryPropagate (n : Net) (p : Lit) : (List Lit) ⊕ Net :=
+/-- theory propagation of an assigned literal (`th->propagate(p)` for the theory bound to the
+    variable): the conflict, if any, and the network reached (a failing LRA propagation leaves
+    the bounds it updated and the lemmas it recorded in place) -/
+def theoryPropagate (n : Net) (p : Lit) : Option (List Lit) × Net :=
   match n.theoryOf p.var with
-  | none => .inr n
+  | none => (none, n)
+  | some .lra =>
+    let o := Lra.propagateLit n.sat n.lra p
+    (o.cnfl, { n with sat := o.sat, lra := o.th })
   | some .idl => match Dl.propagateLit idlOps n.sat n.idl p with
-    | .inl c => .inl c
-    | .inr (s, t) => .inr { n with sat := s, idl := t }
+    | .inl c => (some c, n)
+    | .inr (s, t) => (none, { n with sat := s, idl := t })
   | some .rdl => match Dl.propagateLit rdlOps n.sat n.rdl p with
-    | .inl c => .inl c
-    | .inr (s, t) => .inr { n with sat := s, rdl := t }
+    | .inl c => (some c, n)
+    | .inr (s, t) => (none, { n with sat := s, rdl := t })
 
 /-- `analyze` + backjump + `record` for a conflicting clause given by its literals -/
 def learnFrom (n : Net) (cnfl : Clause) : Option Net :=
@@ -55,12 +68,22 @@ def learnFrom (n : Net) (cnfl : Clause) : Option Net :=
     let n := popTo { n with sat := s } bt
     some { n with sat := n.sat.record noGood }
 
-/-- `propagate()` with theories -/
+/-- `propagate()` with theories.  After the queue is exhausted every theory is checked, in
+    registration order (lra, ov, idl, rdl); only `lra_theory::check` can fail or change state. -/
 def propagate (n : Net) : Nat → Option (Bool × Net)
   | 0 => none
   | fuel + 1 =>
     match n.sat.queue with
-    | [] => some (true, n)      -- the difference-logic and object-variable `check()` are vacuous
+    | [] =>
+      match n.lra.check fuel with
+      | none => none
+      | some (none, t) => some (true, { n with lra := t })
+      | some (some cnfl, t) =>
+        let n := { n with lra := t }
+        if n.sat.rootLevel then some (false, { n with sat := { n.sat with dead := true } })
+        else match learnFrom n cnfl with
+          | none => none
+          | some n' => propagate n' fuel
     | p :: q =>
       let tmp := n.sat.watches.getD p.idx []
       let s := { n.sat with queue := q, watches := n.sat.watches.set p.idx [] }
@@ -72,18 +95,18 @@ def propagate (n : Net) : Nat → Option (Bool × Net)
           | some n' => propagate n' fuel
       | (s, none) =>
         match theoryPropagate { n with sat := s } p with
-        | .inr n' => propagate n' fuel
-        | .inl cnfl =>
-          let s := { s with queue := [] }
-          if s.rootLevel then some (false, { n with sat := { s with dead := true } })
-          else match learnFrom { n with sat := s } cnfl with
+        | (none, n') => propagate n' fuel
+        | (some cnfl, n') =>
+          let n' := { n' with sat := { n'.sat with queue := [] } }
+          if n'.sat.rootLevel then some (false, { n' with sat := { n'.sat with dead := true } })
+          else match learnFrom n' cnfl with
             | none => none
-            | some n' => propagate n' fuel
+            | some n'' => propagate n'' fuel
 
 /-- `assume(p)` -/
 def assume (n : Net) (p : Lit) (fuel : Nat) : Option (Bool × Net) :=
   let s := { n.sat with trailLim := n.sat.trail.length :: n.sat.trailLim, decisions := p :: n.sat.decisions }
-  let n := { n with sat := s, idl := n.idl.push, rdl := n.rdl.push }
+  let n := { n with sat := s, lra := n.lra.push, idl := n.idl.push, rdl := n.rdl.push }
   match n.sat.enqueue p none with
   | (false, s) => some (false, { n with sat := s })
   | (true, s) => propagate { n with sat := s } fuel
@@ -134,6 +157,7 @@ def rdlNewDistance (n : Net) (src dst : Nat) (dist : IR) : Lit × Net :=
     conjunction variable of `new_eq` is not bound) -/
 def bindConstrs (n : Net) (th : Th) : Net :=
   let vs : List Nat := match th with
+    | .lra => n.lra.vAsrts.map (·.1)
     | .idl => n.idl.varDists.map (fun c => c.b)
     | .rdl => n.rdl.varDists.map (fun c => c.b)
   { n with bound := n.bound ++ (vs.filter (fun v => (n.theoryOf v).isNone)).map (fun v => (v, th)) }
@@ -143,6 +167,29 @@ def idlNewRel (n : Net) (r : Dl.Rel) (a b : Lin) : Option (Lit × Net) :=
 
 def rdlNewRel (n : Net) (r : Dl.Rel) (a b : Lin) : Option (Lit × Net) :=
   (Dl.newRel rdlOps Sat.newConj n.sat n.rdl r a b).map fun (l, s, t) => (l, bindConstrs { n with sat := s, rdl := t } .rdl)
+
+/-! ### linear real arithmetic requests -/
+
+def lraNewVar (n : Net) : Nat × Net := let (v, t) := n.lra.newVar; (v, { n with lra := t })
+
+/-- `new_var(lin)`: `none` = an assertion of the C++ fails -/
+def lraNewVarLin (n : Net) (l : Lin) : Option (Nat × Net) :=
+  (Lra.newVarLin n.sat n.lra l).map fun (v, t) => (v, { n with lra := t })
+
+/-- `new_lt / new_leq / new_geq / new_gt`; the controlling variable of a new assertion is bound to the theory -/
+def lraNewRel (n : Net) (r : LRel) (a b : Lin) : Option (Lit × Net) :=
+  (Lra.newRel n.sat n.lra r a b).map fun (l, s, t, bs) =>
+    (l, { n with sat := s, lra := t, bound := n.bound ++ bs.toList.map (fun v => (v, Th.lra)) })
+
+/-- `new_eq` (the conjunction variable is not bound) -/
+def lraNewEq (n : Net) (a b : Lin) : Option (Lit × Net) :=
+  (Lra.newEq n.sat n.lra a b).map fun (l, s, t, bs) =>
+    (l, { n with sat := s, lra := t, bound := n.bound ++ bs.map (fun v => (v, Th.lra)) })
+
+/-- `set_lb / set_ub / set (x, val, p)` called from outside the propagation loop -/
+def lraSet (n : Net) (f : Sat → Lra → Nat → IR → Lit → LOut) (x : Nat) (val : IR) (p : Lit) : Option (List Lit) × Net :=
+  let o := f n.sat n.lra x val p
+  (o.cnfl, { n with sat := o.sat, lra := o.th })
 
 end Net
 end Oratio
